@@ -95,6 +95,54 @@ VOCAB = ["make", "get", "(", ")", "[", "]", ",", ".", "start", "end", "if to say
          "x", "1", "1.5", '"s"', "add", "minus", "not", "small pass", "and", "null", "true", "é", "#", '"', "1.", "shout"]
 
 
+def renderer_conformance(sample):
+    """specs/text/Render.tla (descriptive, beyond the listed properties): every line the real renderer prints for the
+    parser's diagnostics against the specification's Lines(..).  INFORMATION ONLY - never a verdict of C07, which
+    asks only that rendering does not fail."""
+    import re
+    reqs = [{"id": i, "src": t, "modes": ["rendertext"]} for i, t in enumerate(sample)]
+    res = runner.run_requests(reqs, mode="front", nworkers=16, timeout=20)
+    cps = lambda t: [ord(ch) for ch in t]
+    cases, idx = [], []
+    for i, t in enumerate(sample):
+        r = res.get(i, {}).get("rendertext", {})
+        if not r.get("diags") or len(r["diags"]) > 6 or len(t) > 600:
+            continue
+        b = t.encode()
+        try:
+            ci = lambda off: len(b[:off].decode("utf-8")) + 1
+            ds = [{"from": ci(d["span"][0]), "to": ci(d["span"][1]), "head": cps("%s[%s]: %s" % (d["sev"], d["code"], d["msg"])),
+                   "labels": [{"from": ci(l["span"][0]), "to": ci(l["span"][1]), "msg": cps(l["msg"])} for l in d["labels"]]} for d in r["diags"]]
+        except UnicodeDecodeError:
+            continue
+        cases.append({"src": cps(t), "ds": ds, "file": cps("t.ns")})
+        idx.append((t, r["text"]))
+    if not cases:
+        return {"cases": 0}
+    path = os.path.join(common.VERIF, "work", "render_%d.ndjson" % os.getpid())
+    tlc.write_ndjson(path, cases)
+    try:
+        t = tlc.run("text/Render.tla", "text/Render.cfg", workers=8, env={"CASES": path}, timeout=900, coverage=False)
+    finally:
+        os.remove(path)
+    if t.timed_out or t.rc != 0:
+        return {"cases": len(cases), "note": "Render.tla did not finish (rc=%s %s)" % (t.rc, t.errors[:2])}
+    agree, deviations = 0, []
+    for rec in t.records:
+        text, actual = idx[rec["i"] - 1]
+        exp = ["".join(chr(x) for x in ln) for ln in rec["lines"]]
+        act = re.sub(r"\x1b\[[0-9;]*m", "", actual).split("\n")
+        if act and act[-1] == "":
+            act.pop()
+        if act == exp:
+            agree += 1
+        elif len(deviations) < 5:
+            k = next((j for j in range(min(len(act), len(exp))) if act[j] != exp[j]), min(len(act), len(exp)))
+            deviations.append({"text": text[:200], "line": k, "rendered": act[k] if k < len(act) else None, "specified": exp[k] if k < len(exp) else None})
+    return {"cases": len(cases), "renderings_equal_to_the_specification": agree, "deviations": len(cases) - agree, "samples_of_deviations": deviations,
+            "model_states": t.distinct}
+
+
 def run(tier):
     common.build_harness()
     v = common.Verdict("C07", tier, "model_checking")
@@ -210,7 +258,9 @@ def run(tier):
             gated += 1
             if r.get("st") not in ("parse_error", "static_error"):
                 v.finding("gating:" + class_string(t[:12]), "a text with an error-level diagnostic was executed: %r" % t, {"text": t})
+    render_info = renderer_conformance(rnd.sample(texts[:n_sweep], min(n_sweep, 1500 if q else 8000)) + rnd.sample(texts[n_sweep:n_sweep + n_mut + n_rand], 300 if q else 2000))
     v.coverage = {"states": states, "transitions": transitions, "traces_validated_against_impl": counts["ok"],
+                  "renderer_conformance_(information_only)": render_info,
                   "texts_enumerated_by_tlc": n_sweep, "token_mutations_of_generated_programs": n_mut, "random_mutations_of_corpus": n_rand, "wide_programs": n_wide,
                   "results": dict(counts), "clean_texts_with_same_tokens_as_reference": token_agree, "clean_texts_with_other_tokens_(information_only)": token_differ,
                   "gating_texts_with_errors_checked": gated, "evaluations": len(texts), "distinct_nontrivial": len(set(texts)),
